@@ -42,19 +42,23 @@ func TestC01(t *testing.T) {
 }
 
 var profileC02 = []kindW{{"mocksend", 6}, {"nftsend", 2}, {"mtsend", 2}, {"flow", 6}, {"round", 6}, {"recv", 3}, {"ack", 2}, {"update", 1},
-	{"commit", 1}, {"clean", 5}, {"recvclean", 2}, {"cleanflow", 5}, {"stale", 5}, {"replay", 8}, {"burst", 2}, {"batch", 4}}
+	{"commit", 1}, {"clean", 5}, {"recvclean", 2}, {"cleanflow", 5}, {"stale", 5}, {"replay", 8}, {"burst", 2}, {"batch", 4}, {"cleanraid", 3}}
 
 func TestC02(t *testing.T) {
 	runProp(t, "C02",
-		"case = topology + up to 50 ops weighted towards re-submission (verbatim and with fresh proofs), cleans and receive-cleans; oracle = per (chain,src,dst,seq) count of accepted MsgRecvPacket <= 1, and completeness: a genuine app packet whose commitment is in the prover's store at proofHeight-1, with no receipt and above the clean point on the target, must be accepted; non-trivial = history with a re-submission after a clean covered it, or a re-submission on a relay hop",
+		"case = topology + up to 50 ops weighted towards re-submission (verbatim and with fresh proofs), cleans and receive-cleans; oracle = per (chain,src,dst,seq) count of accepted MsgRecvPacket <= 1, and completeness: a genuine app packet whose commitment is in the prover's store at proofHeight-1, with no receipt and above the clean point on the target, must be accepted; non-trivial = history whose generated part (after the fixed prefix) contains a re-submission after a clean covered it, or a re-submission on a relay hop",
 		genWorldCaseAB(profileC02, 2, 4, 10, 50, 3),
 		func(c WorldCase, col *Collector) outcome {
 			s := sim.New(buildWorld(c))
 			st := &sim.C02State{Accepted: map[sim.ChanSeq]int{}}
 			s.Checkers = []func(*sim.Sim, *sim.Step) *sim.Violation{sim.CheckC02(st)}
-			out := runOps(s, append(tokenPreamble(c.N), c.Ops...))
+			// fixed prefix: three packets completed on one channel, cleaned in two steps (1, then 3) with each clean
+			// propagated, then the older receive-clean and the original receives re-submitted verbatim
+			prefix := []sim.Op{{K: "mocksend", A: 0, B: 0}, {K: "mocksend", A: 0, B: 0}, {K: "mocksend", A: 0, B: 0}, {K: "round", A: 0}, {K: "round", A: 1}, {K: "round", A: 2},
+				{K: "clean", A: 0, C: 8}, {K: "cleanflow", A: 0}, {K: "clean", A: 0, C: 0}, {K: "cleanflow", A: 0}, {K: "cleanraid", A: 0}}
+			out, gen := runFixedThen(s, append(tokenPreamble(c.N), prefix...), c.Ops)
 			col.AddLabels(s.Labels)
-			if s.Labels["resubmission-after-clean"] > 0 || s.Labels["resubmission-on-relay"] > 0 {
+			if gen("resubmission-after-clean") > 0 || gen("resubmission-on-relay") > 0 {
 				col.MarkNontrivial(map[string]any{"n": c.N, "trace": tail(s.Trace, 12)})
 			}
 			return out
@@ -66,17 +70,22 @@ var profileC03 = []kindW{{"mocksend", 4}, {"nftsend", 7}, {"mtsend", 6}, {"flow"
 
 func TestC03(t *testing.T) {
 	runProp(t, "C03",
-		"case = topology + up to 50 ops weighted towards acknowledgements (14 alterations incl. swapped success/error bytes, other packet's proof, commitment proof instead of ack proof, stale heights, duplicates) with transfers that yield error acks (invalid/blank receivers); oracle = own commitment == sha256(data) before, ack hash in the prover's committed store at proofHeight-1 == sha256(ack bytes), commitment gone after, <=1 accepted ack per packet per chain, stored ack hash == sha256(announced ack) and never changes until cleaned, keeper-level WriteAcknowledgement refuses empty and second writes; non-trivial = history with >=1 processed error ack AND >=1 forged or duplicate ack attempt",
+		"case = topology + up to 50 ops weighted towards acknowledgements (14 alterations incl. swapped success/error bytes, other packet's proof, commitment proof instead of ack proof, stale heights, duplicates) with transfers that yield error acks (invalid/blank receivers); oracle = own commitment == sha256(data) before, ack hash in the prover's committed store at proofHeight-1 == sha256(ack bytes), commitment gone after, <=1 accepted ack per packet per chain, stored ack hash == sha256(announced ack) and never changes until cleaned, keeper-level WriteAcknowledgement refuses empty and second writes; non-trivial = history with >=1 processed error ack AND, in the generated part, >=1 forged or duplicate ack attempt",
 		genWorldCase(profileC03, 2, 4, 10, 50),
 		func(c WorldCase, col *Collector) outcome {
 			s := sim.New(buildWorld(c))
 			st := &sim.C03State{AckedOK: map[sim.ChanSeq]int{}, AckHash: map[sim.ChanSeq][]byte{}}
 			s.Checkers = []func(*sim.Sim, *sim.Step) *sim.Violation{sim.CheckC03(st)}
 			// fixed prefix: one transfer to an undecodable receiver, driven to completion (a processed error ack)
-			prefix := []sim.Op{{K: "nftsend", A: 0, B: 0, C: 0, D: 0, U: 3}, {K: "round", A: 0}}
-			out := runOps(s, append(append(tokenPreamble(c.N), prefix...), c.Ops...))
+			// then (3+ chains) a relayed packet, the relay's rules narrowed to another port, a receive for the *next*
+			// sequence presented to the relay with the first packet's proof, the rules opened again, the genuine next
+			// packet sent and driven to completion: whatever the refused receive left behind must not be there
+			prefix := []sim.Op{{K: "nftsend", A: 0, B: 0, C: 0, D: 0, U: 3}, {K: "round", A: 0},
+				{K: "mocksend", A: 0, B: 0, C: 1}, {K: "rules", A: 2, B: 2}, {K: "recv", A: 1, B: 1, C: 2, U: 1}, {K: "rules", A: 2, B: 0},
+				{K: "mocksend", A: 0, B: 0, C: 1}, {K: "round", A: 2}, {K: "round", A: 1}}
+			out, gen := runFixedThen(s, append(tokenPreamble(c.N), prefix...), c.Ops)
 			col.AddLabels(s.Labels)
-			if s.Labels["processed-error-ack"] > 0 && s.Labels["forged-or-duplicate-ack"] > 0 {
+			if s.Labels["processed-error-ack"] > 0 && gen("forged-or-duplicate-ack") > 0 {
 				col.MarkNontrivial(map[string]any{"n": c.N, "trace": tail(s.Trace, 12)})
 			}
 			return out
@@ -112,11 +121,11 @@ func TestC09(t *testing.T) {
 }
 
 var profileC10 = []kindW{{"mocksend", 8}, {"nftsend", 1}, {"flow", 6}, {"round", 8}, {"recv", 2}, {"ack", 2}, {"update", 1},
-	{"commit", 1}, {"clean", 8}, {"recvclean", 4}, {"cleanflow", 6}, {"stale", 5}, {"replay", 4}, {"burst", 2}}
+	{"commit", 1}, {"clean", 8}, {"recvclean", 4}, {"cleanflow", 6}, {"stale", 5}, {"replay", 4}, {"burst", 2}, {"cleanraid", 3}}
 
 func TestC10(t *testing.T) {
 	runProp(t, "C10",
-		"case = topology + up to 60 ops with several packets per channel in different stages, MsgCleanPacket with N drawn around the clean point / highest contiguous ack / max sent / 0 / 2^64-1, MsgRecvCleanPacket on relay and destination with 7 alterations, replays; oracle = source accept => N>clean point, N<=highest acked (from the harness's own log of accepted acks), all of 1..N acked; elsewhere accept => prover's committed clean point == N at proofHeight-1; effect = only the clean key and receipts/acks in (old,N] change, none <=N survive; clean points never decrease; no recv/ack at or below the clean point is ever accepted; non-trivial = a clean attempted past an unacknowledged packet AND a message at/below a clean point submitted after a successful clean",
+		"case = topology + up to 60 ops with several packets per channel in different stages, MsgCleanPacket with N drawn around the clean point / highest contiguous ack / max sent / 0 / 2^64-1, MsgRecvCleanPacket on relay and destination with 7 alterations, replays; oracle = source accept => N>clean point, N<=highest acked (from the harness's own log of accepted acks), all of 1..N acked; elsewhere accept => prover's committed clean point == N at proofHeight-1; effect = only the clean key and receipts/acks in (old,N] change, none <=N survive; clean points never decrease; no recv/ack at or below the clean point is ever accepted; non-trivial = in the generated part (after the fixed prefix): a clean attempted past an unacknowledged packet AND a message at/below a clean point submitted after a successful clean",
 		genWorldCaseAB(profileC10, 2, 4, 12, 60, 3),
 		func(c WorldCase, col *Collector) outcome {
 			s := sim.New(buildWorld(c))
@@ -124,10 +133,10 @@ func TestC10(t *testing.T) {
 			// fixed prefix: three packets on one channel, the second acknowledged first, a clean attempted past
 			// the unacknowledged first one, then everything acknowledged, cleaned, propagated and probed again
 			prefix := []sim.Op{{K: "mocksend", A: 0, B: 0}, {K: "mocksend", A: 0, B: 0}, {K: "mocksend", A: 0, B: 0}, {K: "round", A: 1},
-				{K: "clean", A: 0, C: 9}, {K: "round", A: 0}, {K: "clean", A: 0, C: 0}, {K: "cleanflow", A: 0}, {K: "stale", A: 0, B: 0}, {K: "stale", A: 1, B: 1}}
-			out := runOps(s, append(append(tokenPreamble(c.N), prefix...), c.Ops...))
+				{K: "clean", A: 0, C: 9}, {K: "round", A: 0}, {K: "clean", A: 0, C: 8}, {K: "cleanflow", A: 0}, {K: "clean", A: 0, C: 0}, {K: "cleanflow", A: 0}, {K: "cleanraid", A: 0}, {K: "stale", A: 0, B: 0}, {K: "stale", A: 1, B: 1}}
+			out, gen := runFixedThen(s, append(tokenPreamble(c.N), prefix...), c.Ops)
 			col.AddLabels(s.Labels)
-			if s.Labels["clean-past-unacked"] > 0 && s.Labels["msg-at-or-below-clean-point"] > 0 {
+			if gen("clean-past-unacked") > 0 && gen("msg-at-or-below-clean-point") > 0 {
 				col.MarkNontrivial(map[string]any{"n": c.N, "trace": tail(s.Trace, 12)})
 			}
 			return out
